@@ -2613,3 +2613,16 @@ Theorem compile_fn_correct_closures_partial :
 Proof. vm_compute. split; reflexivity. Qed.
 Print Assumptions compile_fn_correct_readonly_partial.
 Print Assumptions compile_fn_correct_closures_partial.
+
+(* a failing assignment defines nothing: SetGlobal on an undefined name stops with the NameError and the SAME world
+   (vm.rs undoes its probe insert); likewise the evaluators return their state unchanged *)
+Lemma set_global_failure_unchanged : forall x pc v stk w,
+  lookup (globals w) x = None ->
+  step_instr (IGlobal OpSetGlobal x) pc (v :: stk) w = SErr (NameError (msg_undefined x)) w.
+Proof. intros x pc v stk w H. cbn [step_instr step_global]. rewrite H. reflexivity. Qed.
+
+Lemma fset_var_failure_unchanged : forall s x v e, fset_var s x v = Er e -> e = NameError (msg_undefined x).
+Proof.
+  intros s x v e H. unfold fset_var in H. destruct (find_var s x); [discriminate|].
+  destruct (lookup (globals (ewd s)) x); [discriminate|]. inversion H. reflexivity.
+Qed.
